@@ -738,6 +738,36 @@ void vf_harness(void) { String* s; int n; const char* fmt; int L; g_L = L; Strin
 )
 UNITS += [ctor_fmt]
 
+# ---- operator<(const String&): the order used by Array<String>::sort and by generic code - byte-wise lexicographic, a proper prefix is smaller
+lt_unit = Unit(
+    'String_less', 'C03',
+    cuts=[Cut('lt', H, r'^\tbool operator<\(const String& s\) const ', rules=[(r'\bs\.str\(\)', 'b', None), (r'(?<![\w.>])str\(\)', 'a', None), (r'\bs\._len\b', 'b_len', None), (r'\b_len\b', 'a_len', None), (r'\bs\.length\(\)', 'b_len', None), (r'(?<![\w.>])length\(\)', 'a_len', None)])],
+    text=r'''
+#include "vf_base.h"
+#define NS 4
+#define min(x, y) ((x) < (y) ? (x) : (y))
+int a_len, b_len;
+static int strcmp(const char* x, const char* y) { for (int i = 0; i <= NS; i++) { unsigned char c = (unsigned char)x[i], d = (unsigned char)y[i]; if (c != d) return c < d ? -1 : 1; if (c == 0) return 0; } return 0; }
+static int memcmp(const void* x, const void* y, unsigned long n) { const unsigned char *u = x, *v = y; for (unsigned long i = 0; i < n && i <= NS; i++) if (u[i] != v[i]) return u[i] < v[i] ? -1 : 1; return 0; }
+static bool String_less(const char* a, const char* b) @@lt@@
+int nondet_int(void); char nondet_char(void);
+void vf_harness(void) {
+  char a[NS + 1], b[NS + 1]; a_len = nondet_int(); b_len = nondet_int(); __CPROVER_assume(0 <= a_len && a_len <= NS && 0 <= b_len && b_len <= NS);
+  for (int i = 0; i <= NS; i++) { a[i] = i < a_len ? nondet_char() : 0; b[i] = i < b_len ? nondet_char() : 0; __CPROVER_assume(i >= a_len || a[i] != 0); __CPROVER_assume(i >= b_len || b[i] != 0); }
+  int same = a_len == b_len; for (int i = 0; i < NS; i++) if (a[i] != b[i]) same = 0;
+  bool ab = String_less(a, b), ba = String_less(b, a);
+  __CPROVER_assert(!(ab && ba), "asymmetric");
+  __CPROVER_assert(same || ab || ba, "total: two different strings (a proper prefix and the empty string included) are ordered one way");
+  __CPROVER_assert(ab == (strcmp(a, b) < 0), "byte-wise lexicographic order");
+  VF_CANARY();
+}
+''',
+    entry=None, unwind=8, floor=3, expect=['assertion'], kind='bounded', bound='strings of 0..4 bytes',
+    desc='String::operator<: a strict total order on strings (proper prefixes and the empty string included), byte-wise lexicographic',
+    functions=['String::operator<(const String&)'],
+)
+UNITS += [lt_unit]
+
 # replay: where the trace recipe of a unit does not reproduce (or there is none) the driver's battery runs on the real library: asl::String against std::string for lengths
 # straddling 15/16, 20/24, 255/256 and 1 KiB - construction, +=, append/assign (also of own pieces), substring/substr, resize, formatting, search, split/join, replace, trim, integers
 _bat = replay.battery('C03/driver.cpp', ['battery'])
